@@ -15,7 +15,7 @@ from .. import core, tlc
 from ..gamma import TEMPLATE_PREFIX, g_ctx, g_data, g_prog, prog_key
 from ..pool import pmap
 
-KEYS = ["value", "factor", "addend", "a", "b", "w", "t_values"]
+KEYS = ["value", "factor", "addend", "a", "b", "w", "t_values", "a.b", "a_b"]
 FREE = ["value", "factor", "addend", "a", "b", "w"]
 BOUND = 40000
 
@@ -103,12 +103,16 @@ def gen_program(rng: random.Random, maxlen: int = 8) -> Dict[str, Any]:
         else:
             ictx[k] = dict(ABSENT)
     ictx["t_values"] = dict(ABSENT)
+    ictx["a.b"] = dict(ABSENT)
+    ictx["a_b"] = dict(ABSENT)
     prog = []
     for _ in range(n):
         t = ty if rng.random() > 0.15 else rng.choice(["none", "float", "coll"])
         if rng.random() < 0.22:
             kind = rng.choice(["Rename", "Delete", "Template"])
-            k1, k2 = rng.choice(FREE), rng.choice(FREE)
+            k1, k2 = rng.choice(FREE + ["a.b", "a_b"]), rng.choice(FREE + ["a.b", "a_b"])
+            if kind == "Template" and "." in k1:
+                k1 = "a_b"          # "{a.b}" would be attribute access in a format string
             prog.append(node(kind, k1=k1, k2=k2 if kind != "Delete" else ""))
             continue
         if t == "none":
